@@ -214,7 +214,8 @@ func (w *W) strLess(a, b Str) *Term {
 // strBytes returns the byte terms of a string of concrete length.
 func (w *W) strBytes(s Str, what string) []*Term {
 	if !s.Len.IsConst() {
-		unsupp("%s on a string of symbolic length", what)
+		// a symbolic length is made concrete by forking over its possible values
+		s.Len = w.ts.Int64(w.concretizeInt(s.Len, 0, int64(w.maxLen(s)), "string length for "+what))
 	}
 	n := int(s.Len.Val)
 	out := make([]*Term, n)
